@@ -403,7 +403,7 @@ func igGenerate(r *hx.Rand, p igProfile) (*igSchema, error) {
 	}
 	// roots
 	qn, mn, sn := "Query", "Mutation", "Subscription"
-	custom := p.CustomRoots && r.Chance(1, 6)
+	custom := p.CustomRoots && r.Chance(1, 14)
 	if custom {
 		g.f("custom-root-names")
 		qn, mn, sn = "RootQ", "RootM", "RootS"
